@@ -66,6 +66,7 @@ pub enum Case {
     C09(crate::prop::c09::AgreeCase),
     C09B(crate::prop::c09::BorrowCase),
     C11(crate::prop::c11::StreamCase),
+    C07(crate::prop::c07::BudgetCase),
 }
 
 #[derive(Clone, Debug, Serialize, Deserialize)]
